@@ -144,7 +144,19 @@ Section Ok.
      | None => false end &&
      match access T (ci_id ci) AccCall with Some b => kind_is T b KCall | None => false end).
 
+  (* the names __getattr__ refuses to defer are protocol names __x__ : every
+     ordinary attribute of a value (dtype, shape, real, T, a method name ...)
+     can be reached through a reference *)
+  Definition is_dunder (n : pystr) : bool :=
+    match n with
+    | 95%N :: 95%N :: _ =>
+        match rev n with 95%N :: 95%N :: _ => Nat.leb 5 (length n) | _ => false end
+    | _ => false
+    end.
+  Definition special_names_ok : bool := forallb is_dunder (t_special_names T).
+
   Definition tables_ok : bool :=
+    special_names_ok &&
     specials_ok &&
     forallb binop_ok all_binops && forallb unop_ok all_unops && forallb builtin_ok all_bfuns &&
     forallb inplace_ok inplace_ops && forallb access_ok (t_classes T).
